@@ -47,6 +47,7 @@ def plan(tier, seed):
                 if PHR[i][0] <= PHR[j][0]:
                     shards.append(("k3", i, j))
     shards += [("long", n) for n in (8, 12, 20, 40, 300)]
+    shards += [("k3ties", t, l1) for t in (0, 2) for l1 in range(5)]
     shards += [("headers", k) for k in range(8)]
     shards += [("big", bi, i) for bi in range(len(BASES)) for i in range(-1, len(PHR))]
     return dict(
@@ -177,6 +178,18 @@ def run_shard(shard, ctx):
                 for SUSTAIN in (7, 2, -9):
                     check_list(ctx, (p, q), ("before",), 6)
                 SUSTAIN = 0
+    elif kind == "k3ties":
+        # three and four phrases that START ON ONE TICK, every combination of lengths (duplicates of an earlier
+        # phrase, a longer one between two equal ones ...), optionally behind an earlier phrase
+        _, t, l1 = shard
+        for l2 in range(5):
+            for l3 in range(5):
+                ctx.node()
+                check_list(ctx, ((t, l1), (t, l2), (t, l3)), ("before",), 7)
+                if t:
+                    check_list(ctx, ((0, 2), (t, l1), (t, l2), (t, l3)), ("before",), 7)
+                if l3 in (1, 4):
+                    check_list(ctx, ((t, l1), (t, l2), (t, l3), (t, l1)), ("before",), 7)
     elif kind == "k3":
         p, q = PHR[shard[1]], PHR[shard[2]]
         ctx.node(2)
